@@ -311,13 +311,34 @@ impl From<bool> for LiteralKind {
     }
 }
 
+/// Writes `units` as a double-quoted string literal that evaluates to the same string.
+pub(crate) fn quote_string(units: &[u16]) -> String {
+    let mut out = String::with_capacity(units.len() + 2);
+    out.push('"');
+    for unit in char::decode_utf16(units.iter().copied()) {
+        match unit {
+            Ok('"') => out.push_str("\\\""),
+            Ok('\\') => out.push_str("\\\\"),
+            Ok('\n') => out.push_str("\\n"),
+            Ok('\r') => out.push_str("\\r"),
+            Ok('\t') => out.push_str("\\t"),
+            Ok(c) if (c as u32) < 0x20 || c == '\u{2028}' || c == '\u{2029}' => {
+                out.push_str(&format!("\\u{:04X}", c as u32));
+            }
+            Ok(c) => out.push(c),
+            // A lone surrogate.
+            Err(e) => out.push_str(&format!("\\u{:04X}", e.unpaired_surrogate())),
+        }
+    }
+    out.push('"');
+    out
+}
+
 impl ToInternedString for LiteralKind {
     #[inline]
     fn to_interned_string(&self, interner: &Interner) -> String {
         match *self {
-            Self::String(st) => {
-                format!("\"{}\"", interner.resolve_expect(st))
-            }
+            Self::String(st) => quote_string(interner.resolve_expect(st).utf16()),
             Self::Num(num) => num.to_string(),
             Self::Int(num) => num.to_string(),
             Self::BigInt(ref num) => format!("{num}n"),
